@@ -386,7 +386,8 @@ def rule_r5(ctx, rep):
                     dels.append((n, t))
         if isinstance(n, ast.Call) and isinstance(n.func, ast.Attribute) and n.func.attr in ("pop",) and isinstance(n.func.value, ast.Attribute) \
                 and n.func.value.attr == nm.registry:
-            dels.append((n, None))
+            # registry.pop(id) / registry.pop(id, default) removes exactly the key `id` as `del registry[id]` does (and hands the node back)
+            dels.append((n, ast.Subscript(value=n.func.value, slice=n.args[0], ctx=ast.Del()) if n.args and not n.keywords else None))
     rep.count("registry deletions in delete_node_instance", len(dels))
     ok = bool(dels) and all(t is not None and isinstance(t.slice, ast.Name) and t.slice.id == idp for (_n, t) in dels)
     rep.oblige(("R5", "exact-key"), ok)
